@@ -172,6 +172,17 @@ func C10Shim(tier string, shard, of int, maxDev int) int {
 			res.Findings = append(res.Findings, c10Finding{kind, detail, tr.String(), variant})
 		}
 	}
+	if shard == 0 && detc.ShimAvailable {
+		// the construction of the seed itself (real messages, export, InitChain) under the other clock instant
+		other := detc.NewEnvClock(1)
+		res.Runs++
+		res.ClockVariants++
+		if other.Digest != env.Digest || fmt.Sprint(other.SeedFailures) != fmt.Sprint(env.SeedFailures) {
+			add("C10/wall-clock-reaches-consensus/seed-construction",
+				fmt.Sprintf("the seed messages produce genesis %s (failed steps %q) with the clock at the first instant and %s (failed steps %q) at the second", env.Digest, env.SeedFailures, other.Digest, other.SeedFailures),
+				nil, "clock=1 during seed construction")
+		}
+	}
 	for ti, tr := range traces {
 		if ti%of != shard {
 			continue
@@ -467,6 +478,16 @@ func init() {
 			vac = append(vac, "no dynamic map-range instance had 2 or more keys")
 		}
 		o.Coverage["vacuity_warnings"] = vac
+		if len(env.SeedFailures) > 0 {
+			o.Coverage["seed_steps_failed"] = env.SeedFailures
+			if len(o.Findings) == 0 {
+				// the designed seed could not be built and no difference between environments was found:
+				// not a verdict (same convention as Engine A's failed seeds)
+				fmt.Fprintf(os.Stderr, "C10: seed steps failed: %q\n", env.SeedFailures)
+				o.Finish()
+				return 2
+			}
+		}
 		return o.Finish()
 	}
 }
